@@ -51,7 +51,7 @@ type c29Case struct {
 
 var c29Muts = []string{"outsider", "outsider", "recent", "recent", "diff-flip", "diff-flip", "diff-bad", "coinbase", "coinbase",
 	"extra-short", "extra-odd", "mix", "uncle", "gas-jump", "gas-used", "number", "unknown-parent", "badsig", "sig-v", "chainid",
-	"time-early", "epoch-force", "zero-sig"}
+	"time-early", "epoch-force", "zero-sig", "recent-dist", "recent-dist"}
 
 func genKeyList(t *rapid.T, label string, lo, hi int) []int {
 	return rapid.SliceOfNDistinct(rapid.IntRange(0, nSealerKeys-1), lo, hi, rapid.ID[int]).Draw(t, label)
@@ -108,7 +108,48 @@ func genC29(t *rapid.T) c29Case {
 		c.Prev = append([]int{}, c.List...)
 	}
 	weakMain := rapid.IntRange(0, 2).Draw(t, "weakMain") == 0
-	c.Ops = rapid.SliceOfN(rapid.Custom(func(t *rapid.T) c29Op { return genC29Op(t, weakMain) }), 6, ev.Scale(44, 110)).Draw(t, "ops")
+	// transition script (2 of 3 cases): a validator set of extreme size, an epoch header that shrinks or grows it by a
+	// large factor, then at EVERY height of the transition window a recent-signer attempt at EVERY distance 2..max/2+1
+	// (the rejected attempts leave no trace, so one chain carries the whole grid), each height closed by a valid header.
+	var script []c29Op
+	nscripts := 0
+	if rapid.IntRange(0, 2).Draw(t, "script?") > 0 {
+		nscripts = ev.Scale(1, 2)
+	}
+	size := 0
+	for k := 0; k < nscripts; k++ {
+		if k == 0 {
+			size = rapid.SampledFrom([]int{2, 3, 5, 7, 9}).Draw(t, "oldsize")
+			c.List = genKeyList(t, "slist", size, size)
+			c.Prev = append([]int{}, c.List...)
+		}
+		newSize := rapid.SampledFrom([]int{1, 2, 3, 4, 7, 9}).Draw(t, "newsize")
+		wOld, wMax := size/2, size/2
+		if newSize/2 > wMax {
+			wMax = newSize / 2
+		}
+		for i := 0; i < wOld+1+rapid.IntRange(0, 2).Draw(t, "pre"); i++ {
+			script = append(script, c29Op{Kind: "ext", InTurn: true, Signer: i})
+		}
+		script = append(script, c29Op{Kind: "ext", InTurn: true, Epoch: genKeyList(t, "newlist", newSize, newSize)})
+		for h := 0; h <= wMax+1; h++ {
+			for d := 2; d <= wMax+1; d++ {
+				script = append(script, c29Op{Kind: "mut", Mut: "recent-dist", Arg: d, InTurn: rapid.Bool().Draw(t, "it")})
+			}
+			script = append(script, c29Op{Kind: "ext", InTurn: rapid.IntRange(0, 3).Draw(t, "ext-it") > 0, Signer: rapid.IntRange(0, 8).Draw(t, "ext-s")})
+		}
+		size = newSize
+	}
+	maxRandom := ev.Scale(44, 110) - len(script)
+	if maxRandom < 8 {
+		maxRandom = 8
+	}
+	random := rapid.SliceOfN(rapid.Custom(func(t *rapid.T) c29Op { return genC29Op(t, weakMain) }), 6, maxRandom).Draw(t, "ops")
+	lead := 0
+	if len(script) > 0 && rapid.IntRange(0, 3).Draw(t, "lead") == 0 {
+		lead = rapid.IntRange(0, len(random)).Draw(t, "leadn")
+	}
+	c.Ops = append(append(append([]c29Op{}, random[:lead]...), script...), random[lead:]...)
 	return c
 }
 
@@ -133,6 +174,35 @@ func c29Flush() {
 
 func c29NotExercised() []string {
 	return []string{"polygon-bor: exercised only inside one sprint with the producer set of the trust-root snapshot (span changes / sprint boundaries need Heimdall span proofs and are not generated)"}
+}
+
+// windowClass names where a seal at distance d lies relative to the recent window of a set of n validators.
+func windowClass(d, n int, member bool) string {
+	switch {
+	case !member:
+		return "not-in-set"
+	case d <= n/2:
+		return "in-window"
+	case d == n/2+1:
+		return "just-outside"
+	}
+	return "outside"
+}
+
+// phase of a child of p at height num with respect to validator-set changes.
+func (m *chainModel) phase(p *node, num uint64) string {
+	switch {
+	case m.e.ad.kind == "clique":
+		if num%m.e.epoch <= 1 {
+			return "at-checkpoint"
+		}
+		return "steady"
+	case p.snap.pend != nil:
+		return "change-pending"
+	case num-p.snap.lastEpoch <= 6:
+		return "after-change"
+	}
+	return "steady"
 }
 
 func turnMode(op c29Op) int {
@@ -256,6 +326,24 @@ func (m *chainModel) buildOp(op c29Op, tip *node) (*types.Header, string) {
 		h.Coinbase = a
 		h.Difficulty = rightDiff(a)
 		resign(keyIndexOf(a))
+	case "recent-dist":
+		// sealed by whoever sealed the block at distance d = 2.. (Arg) behind the new header (d = 1 is the parent)
+		d := 2 + op.Arg%5
+		if op.Arg >= 2 && op.Arg <= 6 {
+			d = op.Arg
+		}
+		q := p
+		for i := 1; i < d && q != nil; i++ {
+			q = q.parent
+		}
+		if q == nil || keyIndexOf(q.h.Coinbase) < 0 {
+			return h, "mut:recent-dist:no-such-ancestor"
+		}
+		a := q.h.Coinbase
+		h.Coinbase = a
+		h.Difficulty = rightDiff(a)
+		resign(keyIndexOf(a))
+		label = fmt.Sprintf("mut:recent-dist:d=%d:%s:%s", d, windowClass(d, len(S), indexOfAddr(S, a) >= 0), m.phase(p, num))
 	case "diff-flip":
 		h.Difficulty = big.NewInt(3 - h.Difficulty.Int64())
 		resign(ki)
